@@ -21,6 +21,9 @@ def de_casteljau(P:list, t:float):
         raise InvalidRangeArgumentError("t", t, "in [0,1]")
     coeffs = [x for x in P]
     order = len(P)-1
+    if order == 0:
+        # a single control point : the curve is constant. Return a copy and not the control point itself
+        return Vec(np.array(coeffs[0]))
     for j in range(order):
         for i in range(order - j):
             coeffs[i] = t*coeffs[i+1] + (1-t)*coeffs[i]
